@@ -41,10 +41,26 @@ type Stream struct {
 	// reconnecting destination ("dest"): Count stamped hub messages of Blk bytes on a stream with a destination
 	// rule; the destination (a websocket server of the harness) ends the session after CutMin..CutMax messages
 	// (close frame, or the connection just dropped when Abrupt) and is dialled again by rwc/reconws
+	// aggregated stream ("agg"): DestKinds destinations ("hub" = plain hub client, "rwc" = destination rule to a
+	// websocket server of the harness) sit on stream/<name>; the stream rule (Feeds feeds) is added according to
+	// Order: "dest-first" (destinations, then the rule), "resubmit" (rule, destinations, the same rule again),
+	// "replace" (rule with one feed, destinations, rule with all feeds), "rule-first" (rule, then destinations);
+	// then Count stamped messages of Blk bytes are published on the feeds in turn
+	DestKinds []string `json:"dest_kinds,omitempty"`
+	Feeds     int      `json:"feeds,omitempty"`
+	Order     string   `json:"order,omitempty"`
+	// typed websocket messages ("wstext"): sent by a websocket client of /ws/<feed>, forwarded by a destination rule
+	Msgs []TMsg `json:"msgs,omitempty"`
 	CutMin int  `json:"cut_min,omitempty"`
 	CutMax int  `json:"cut_max,omitempty"`
 	Abrupt bool `json:"abrupt,omitempty"`
 	Obs       *Observed  `json:"obs,omitempty"`
+}
+
+// TMsg is one websocket message with its type.
+type TMsg struct {
+	Text bool   `json:"text"`
+	Data []byte `json:"data"`
 }
 
 // Ev is one event of the schedule handed to the model.
@@ -73,7 +89,9 @@ type Observed struct {
 	Posted    int      `json:"posted"`
 	Frames    [][]byte `json:"frames,omitempty"`    // wsout: the websocket messages the slow client received
 	FrameLens []int    `json:"frame_lens,omitempty"`
-	Conns     []int    `json:"conns,omitempty"`     // dest: for every message received (Frames), the number of the connection it came over
+	Conns     []int    `json:"conns,omitempty"`
+	PerDest   [][][]byte `json:"per_dest,omitempty"` // agg: what each destination received, in order
+	RecvText  []bool   `json:"recv_text,omitempty"`  // wstext: for every message received (Frames), whether it came as a text message     // dest: for every message received (Frames), the number of the connection it came over
 	TapLens   []int    `json:"tap_lens,omitempty"` // lengths of the hand-offs (kept when the bytes are dropped from a report)
 }
 
@@ -123,8 +141,15 @@ func wsoutIndex(piece []byte) int {
 }
 
 func (s Stream) total() int {
-	if s.Kind == "wsout" || s.Kind == "dest" {
+	if s.Kind == "wsout" || s.Kind == "dest" || s.Kind == "agg" {
 		return s.Blk * s.Count
+	}
+	if s.Kind == "wstext" {
+		t := 0
+		for _, m := range s.Msgs {
+			t += len(m.Data)
+		}
+		return t
 	}
 	t := 0
 	for _, b := range s.Bursts {
@@ -232,7 +257,71 @@ func (s Stream) coqDest() string {
 	return lib.App("CD", lib.N(s.Seed), lib.N(uint64(s.Blk)), lib.List(evs), lib.List(recv))
 }
 
+// coqAgg / coqText: the websocket-path model (WsMsg events): every message published is a hand-off, a
+// destination that missed one was Busy, one that got it Consumes it at once
+func (s Stream) coqAgg() string {
+	o := s.Obs
+	nd := len(s.DestKinds)
+	next := make([]int, nd) // position in each destination's received list
+	evs := []string{}
+	tap := []string{}
+	input := s.wsoutInput()
+	for k := 0; k < s.Count; k++ {
+		got := make([]bool, nd)
+		for d := 0; d < nd; d++ {
+			if next[d] < len(o.PerDest[d]) && wsoutIndex(o.PerDest[d][next[d]]) == k {
+				got[d] = true
+			} else {
+				evs = append(evs, lib.App("Busy", lib.Nat(d)))
+			}
+		}
+		evs = append(evs, lib.App("WsMsg", lib.App("wmsg", lib.N(s.Seed), lib.N(uint64(s.Blk)), lib.Nat(k))))
+		tap = append(tap, obsbLimit(input[k*s.Blk:(k+1)*s.Blk], 128))
+		for d := 0; d < nd; d++ {
+			if got[d] {
+				evs = append(evs, lib.App("Consume", lib.Nat(d)))
+				next[d]++
+			}
+		}
+	}
+	caps, reads := []string{}, []string{}
+	for d := 0; d < nd; d++ {
+		caps = append(caps, lib.Nat(1))
+		one := []string{}
+		for _, m := range o.PerDest[d] {
+			one = append(one, obsbLimit(m, 128))
+		}
+		reads = append(reads, lib.List(one))
+	}
+	return lib.App("CS", lib.N(0), lib.List(caps), lib.List(evs), lib.List(tap), lib.List(reads))
+}
+
+func (s Stream) coqText() string {
+	o := s.Obs
+	evs, tap, reads := []string{}, []string{}, []string{}
+	gi := 0
+	for _, m := range s.Msgs {
+		if gi < len(o.Frames) && string(o.Frames[gi]) == string(m.Data) {
+			evs = append(evs, lib.App("WsMsg", hx(m.Data)), lib.App("Consume", lib.Nat(0)))
+			gi++
+		} else {
+			evs = append(evs, lib.App("Busy", lib.Nat(0)), lib.App("WsMsg", hx(m.Data)))
+		}
+		tap = append(tap, "(OB "+hx(m.Data)+")")
+	}
+	for _, f := range o.Frames {
+		reads = append(reads, "(OB "+hx(f)+")")
+	}
+	return lib.App("CS", lib.N(0), lib.List([]string{lib.Nat(2)}), lib.List(evs), lib.List(tap), lib.List([]string{lib.List(reads)}))
+}
+
 func (s Stream) coq() string {
+	if s.Kind == "agg" {
+		return s.coqAgg()
+	}
+	if s.Kind == "wstext" {
+		return s.coqText()
+	}
 	if s.Kind == "wsout" {
 		return s.coqWsOut()
 	}
@@ -282,6 +371,25 @@ func (s Stream) describe() string {
 		return fmt.Sprintf("wsout stream %q seed=%d: %d hub messages of %d bytes towards a websocket client of /ws/<feed> that reads %d messages then pauses %d us (SO_RCVBUF %d)",
 			s.Name, s.Seed, s.Count, s.Blk, s.ReadBurst, s.ReadPauseUs, s.Rcvbuf)
 	}
+	if s.Kind == "agg" {
+		return fmt.Sprintf("agg stream %q seed=%d: destinations %v on stream/%s, stream rule over %d feed(s) added in order %q, then %d messages of %d bytes published on the feeds in turn",
+			s.Name, s.Seed, s.DestKinds, s.Name, s.Feeds, s.Order, s.Count, s.Blk)
+	}
+	if s.Kind == "wstext" {
+		parts := []string{}
+		for i, m := range s.Msgs {
+			if i >= 12 {
+				parts = append(parts, "...")
+				break
+			}
+			t := "bin"
+			if m.Text {
+				t = "text"
+			}
+			parts = append(parts, fmt.Sprintf("%s:%x", t, m.Data))
+		}
+		return fmt.Sprintf("wstext stream %q: %d typed websocket messages into /ws/<feed>, forwarded by a destination rule: %s", s.Name, len(s.Msgs), strings.Join(parts, " "))
+	}
 	if s.Kind == "dest" {
 		return fmt.Sprintf("dest stream %q seed=%d: %d hub messages of %d bytes on a stream whose destination ends the session after every %d-%d messages (abrupt=%v) and is dialled again by rwc/reconws",
 			s.Name, s.Seed, s.Count, s.Blk, s.CutMin, s.CutMax, s.Abrupt)
@@ -301,6 +409,21 @@ func (s Stream) describe() string {
 
 func genStream(r *lib.Rng, kind string, i int) Stream {
 	s := Stream{Kind: kind, Name: fmt.Sprintf("%s%d", kind, i), Seed: uint64(r.Intn(1 << 20))}
+	if kind == "agg" {
+		s.Blk = []int{32, 64, 256}[r.Intn(3)]
+		s.Count = r.Range(40, 120)
+		s.Feeds = r.Range(1, 2)
+		s.Order = r.Pick([]string{"dest-first", "resubmit", "replace", "rule-first", "dest-first"})
+		nd := r.Range(2, 3)
+		for i := 0; i < nd; i++ {
+			s.DestKinds = append(s.DestKinds, r.Pick([]string{"hub", "hub", "rwc"}))
+		}
+		return s
+	}
+	if kind == "wstext" {
+		s.Msgs = genTextMsgs(r)
+		return s
+	}
 	if kind == "dest" {
 		s.Blk = []int{64, 256, 1024}[r.Intn(3)]
 		s.Count = r.Range(300, 900)
@@ -375,6 +498,28 @@ func genStream(r *lib.Rng, kind string, i int) Stream {
 	return s
 }
 
+// genTextMsgs: a UTF-8 text with multi-byte characters cut into websocket messages at arbitrary byte offsets
+// (so that some messages end or begin in the middle of a character), sent as text or as binary, plus stray bytes
+func genTextMsgs(r *lib.Rng) []TMsg {
+	text := []byte(strings.Repeat("T=23.5\u00b0C \u00b10.1 \u00b5V \u20ac5 \U0001F600 na\u00efve\n", r.Range(1, 3)))
+	var out []TMsg
+	for p := 0; p < len(text); {
+		n := r.Range(1, 12)
+		if p+n > len(text) {
+			n = len(text) - p
+		}
+		out = append(out, TMsg{Text: r.Chance(3, 4), Data: append([]byte{}, text[p:p+n]...)})
+		p += n
+	}
+	stray := [][]byte{{0xff}, {0xc2}, {0xb0}, {0xe2, 0x82}, {0xf0, 0x9f, 0x98}, {0xc0, 0x80}, {0xed, 0xa0, 0x80}, {'o', 'k', 0xfe, 'o', 'k'}, []byte("\u00b0"), {}}
+	for i := 0; i < 6; i++ {
+		m := TMsg{Text: r.Chance(3, 4), Data: stray[r.Intn(len(stray))]}
+		at := r.Intn(len(out) + 1)
+		out = append(out[:at], append([]TMsg{m}, out[at:]...)...)
+	}
+	return out
+}
+
 // corpus: streams that run first in every run
 func corpus(tier string) []Stream {
 	out := []Stream{
@@ -394,6 +539,15 @@ func corpus(tier string) []Stream {
 			Consumers: []ConsSpec{{Cap: 2, Policy: "queue", Hold: 1}}},
 		// hub -> slow local websocket client: thousands of 4 kB messages, far more than it reads
 		{Kind: "wsout", Name: "wsout-slow-client", Seed: 69, Blk: 4096, Count: 3000, ReadBurst: 8, ReadPauseUs: 800, Rcvbuf: 16384},
+		// several destinations on one aggregated stream, registered before the stream rule is added / re-submitted
+		{Kind: "agg", Name: "agg-dest-first", Seed: 73, Blk: 64, Count: 80, Feeds: 2, Order: "dest-first", DestKinds: []string{"hub", "hub", "rwc"}},
+		{Kind: "agg", Name: "agg-resubmit", Seed: 74, Blk: 64, Count: 80, Feeds: 1, Order: "resubmit", DestKinds: []string{"hub", "rwc"}},
+		{Kind: "agg", Name: "agg-replace", Seed: 75, Blk: 64, Count: 80, Feeds: 2, Order: "replace", DestKinds: []string{"rwc", "rwc", "hub"}},
+		// text messages that are not valid UTF-8 on their own (a degree sign split between C2 and B0; stray bytes)
+		{Kind: "wstext", Name: "wstext-split-runes", Msgs: []TMsg{
+			{Text: true, Data: []byte("T=23.5\xc2")}, {Text: true, Data: []byte("\xb0C\n")}, {Text: true, Data: []byte("ok\xff\xfeok")},
+			{Text: false, Data: []byte("bin\xc2")}, {Text: true, Data: []byte("\xe2\x82")}, {Text: true, Data: []byte("\xac5 \u00b5V")},
+			{Text: true, Data: []byte("plain ascii")}, {Text: true, Data: []byte("\xf0\x9f\x98")}, {Text: true, Data: []byte("\x80")}, {Text: false, Data: []byte{0, 1, 2, 0xff}}}},
 		// feed -> hub -> rwc -> reconws -> a destination that ends the session every few messages
 		{Kind: "dest", Name: "dest-cuts-close-frame", Seed: 71, Blk: 256, Count: 1200, CutMin: 3, CutMax: 8},
 		{Kind: "dest", Name: "dest-cuts-abrupt", Seed: 72, Blk: 256, Count: 1200, CutMin: 3, CutMax: 8, Abrupt: true},
